@@ -124,9 +124,36 @@ func genC18() {
 	}
 	l.p("/-- arguments of the connectServerStream calls in connectAndAuthenticate / HandleServerShutdown -/")
 	l.p("def firstConnectArgs : List String := %s", flat(c18CallArgs(caa, "c.connectServerStream")))
+	// the function holding the reconnect body = the method that calls
+	// closeStream and connectServerStream (HandleServerShutdown itself, or
+	// a helper it calls, whatever its name)
 	recFn := hss
-	if rec := findFunc(auct, "Client.reconnect"); rec != nil {
-		recFn = rec
+	recName := ""
+	if len(c18CallArgs(hss, "c.connectServerStream")) == 0 {
+		for _, f := range auct {
+			for _, d := range f.Decls {
+				fd, ok := d.(*ast.FuncDecl)
+				if !ok || fd.Body == nil || fd.Recv == nil || fd.Name.Name == "connectAndAuthenticate" {
+					continue
+				}
+				if len(c18CallArgs(fd, "c.connectServerStream")) == 1 && len(c18CallArgs(fd, "c.closeStream")) == 1 {
+					called := false
+					ast.Inspect(hss.Body, func(n ast.Node) bool {
+						if c, ok := n.(*ast.CallExpr); ok && exprString(c.Fun) == "c."+fd.Name.Name {
+							called = true
+						}
+						return true
+					})
+					if called {
+						recFn, recName = fd, fd.Name.Name
+					}
+				}
+			}
+		}
+		if recName == "" {
+			fail("HandleServerShutdown: reconnect body (closeStream + connectServerStream) not found")
+			return
+		}
 	}
 	l.p("def reconnectArgs : List String := %s", flat(c18CallArgs(recFn, "c.connectServerStream")))
 
@@ -214,7 +241,7 @@ func genC18() {
 
 	// ---- bookkeeping shapes ----
 	// HandleServerShutdown: statements of interest in order
-	// (the body moved into Client.reconnect when HandleServerShutdown
+	// (the body moved into a helper when HandleServerShutdown
 	// became a loop that starts over while reconnectDirty is set)
 	shape := func(fd *ast.FuncDecl) []string {
 		var hs []string
@@ -223,8 +250,12 @@ func genC18() {
 			case *ast.CallExpr:
 				switch f := exprString(x.Fun); f {
 				case "c.closeStream", "c.connectServerStream", "c.checkPendingBatch", "delete",
-					"c.StartAccountSubscription", "c.keepSubscriptions", "c.reconnect", "c.HandleServerShutdown":
+					"c.StartAccountSubscription", "c.keepSubscriptions", "c.HandleServerShutdown":
 					hs = append(hs, f)
+				default:
+					if recName != "" && f == "c."+recName {
+						hs = append(hs, "c.<reconnect-body>")
+					}
 				}
 			case *ast.RangeStmt:
 				hs = append(hs, "range "+exprString(x.X))
@@ -248,8 +279,8 @@ func genC18() {
 		return hs
 	}
 	var hs []string
-	if rec := findFunc(auct, "Client.reconnect"); rec != nil {
-		hs = append(shape(hss), shape(rec)...)
+	if recName != "" {
+		hs = append(shape(hss), shape(recFn)...)
 	} else {
 		hs = shape(hss)
 	}
